@@ -1,5 +1,6 @@
 // Unit `decrypt` (C06, C14): Decoder::{key, decrypt} of pdf/src/crypt.rs against ISO 32000-1 7.6.2
-// Algorithm 1 and ISO 32000-2 7.6.3.3 Algorithm 1.A. MD5, RC4 and AES-CBC are uninterpreted spec functions.
+// Algorithm 1 and ISO 32000-2 7.6.3.3 Algorithm 1.A. MD5 and AES-CBC are uninterpreted spec functions;
+// RC4 is the spec function `rc4` of units/rc4 (shared include rc4/rc4_spec.rs), which proves the real Rc4::encrypt against it.
 use vstd::prelude::*;
 use std::collections::HashMap;
 //@@ INCLUDE _common/error_macros.rs
@@ -16,9 +17,12 @@ global size_of usize == 8;
 //@@ enum CryptMethod
 //@@ struct Decoder
 
-// ---- primitives: uninterpreted (DESIGN 6/C06: "MD5, SHA-2, AES, RC4 hoisted as uninterpreted functions") ----
+// ---- primitives: MD5, SHA-2, AES uninterpreted (DESIGN 6/C06); RC4 defined (units/rc4) ----
 pub uninterp spec fn md5_spec(input: Seq<u8>) -> Seq<u8>;
-pub uninterp spec fn rc4_spec(key: Seq<u8>, data: Seq<u8>) -> Seq<u8>;
+// RC4 is NOT uninterpreted: `rc4(key, data)` (KSA + PRGA, Schneier 17.1 / RFC 6229; encryption == decryption) is the spec function of
+// units/rc4, shared through this include together with its proved lemmas (`lemma_rc4_commutes`, `lemma_rc4_involution`, ..).
+// It is `#[verifier::opaque]`: the obligations below use it as a fixed function of (key, data) only.
+//@@ INCLUDE rc4/rc4_spec.rs
 /// AES-128 / AES-256 in CBC mode with PKCS#5/#7 padding removed; None = not a whole number of blocks or bad padding.
 pub uninterp spec fn aes128_cbc_pkcs7(key: Seq<u8>, iv: Seq<u8>, ct: Seq<u8>) -> Option<Seq<u8>>;
 pub uninterp spec fn aes256_cbc_pkcs7(key: Seq<u8>, iv: Seq<u8>, ct: Seq<u8>) -> Option<Seq<u8>>;
@@ -75,7 +79,7 @@ impl Decoder {
     /// Algorithm 1 (RC4 / AESV2) and Algorithm 1.A (AESV3) for data that is not exempt and not empty
     pub open spec fn iso_decrypt(&self, id: PlainRef, data: Seq<u8>) -> Option<Seq<u8>> {
         match self.method {
-            CryptMethod::V2 => Some(rc4_spec(alg1_object_key(self.file_key(), id, false), data)),
+            CryptMethod::V2 => Some(rc4(alg1_object_key(self.file_key(), id, false), data)),
             CryptMethod::AESV2 =>
                 if data.len() < 16 || self.key_size + 5 < 16 { None }
                 else { aes128_cbc_pkcs7(alg1_object_key(self.file_key(), id, true), iv_of(data), ct_of(data)) },
@@ -169,13 +173,16 @@ fn hoist_md5(input: &[u8]) -> (r: [u8; 16])
     ensures r@ == md5_spec(input@)
 { unimplemented!() /* *md5::compute(input) */ }
 
-/// abstract callee Rc4::encrypt (pdf/src/crypt.rs): `Rc4::new` asserts `!key.is_empty() && key.len() <= 256`
+/// callee Rc4::encrypt (pdf/src/crypt.rs), body not repeated here.
+/// proved in units/rc4: Rc4::encrypt/is_rc4_in_place (+ panic_free, terminates) -- same `requires`
+/// (`Rc4::new` asserts `!key.is_empty() && key.len() <= 256`) and the same `ensures`, text for text, over the same
+/// spec function `rc4` (rc4/rc4_spec.rs).
 pub struct Rc4 {}
 impl Rc4 {
     #[verifier::external_body]
     pub fn encrypt(key: &[u8], data: &mut [u8])
         requires 1 <= key@.len() <= 256
-        ensures final(data)@ == rc4_spec(key@, old(data)@)
+        ensures final(data)@ == rc4(key@, old(data)@)
     { unimplemented!() }
 }
 
@@ -280,30 +287,27 @@ pub open spec fn xor_key(k: Seq<u8>, c: u8) -> Seq<u8> { Seq::new(k.len(), |i: i
 /// an XOR operation between each byte of the key and the single-byte value of the iteration counter (from 19 to 0)."
 /// alg7_down(k, d, c) applies the counters c-1, c-2, ..., 0 in that order.
 pub open spec fn alg7_down(k: Seq<u8>, d: Seq<u8>, c: int) -> Seq<u8> decreases c {
-    if c <= 0 { d } else { alg7_down(k, rc4_spec(xor_key(k, (c - 1) as u8), d), c - 1) }
+    if c <= 0 { d } else { alg7_down(k, rc4(xor_key(k, (c - 1) as u8), d), c - 1) }
 }
 /// Algorithm 7 step b): R2 "decrypt the value of the O entry using an RC4 encryption function with the key"
 pub open spec fn alg7_user_password(rev: u32, k: Seq<u8>, o: Seq<u8>) -> Seq<u8> {
-    if rev == 2 { rc4_spec(k, o) } else { alg7_down(k, o, 20) }
+    if rev == 2 { rc4(k, o) } else { alg7_down(k, o, 20) }
 }
 /// the order the implementation uses: counters 0, 1, ..., c-1
 pub open spec fn rounds_up(k: Seq<u8>, d: Seq<u8>, c: int) -> Seq<u8> decreases c {
-    if c <= 0 { d } else { rc4_spec(xor_key(k, (c - 1) as u8), rounds_up(k, d, c - 1)) }
+    if c <= 0 { d } else { rc4(xor_key(k, (c - 1) as u8), rounds_up(k, d, c - 1)) }
 }
-/// TRUSTED property of the uninterpreted primitive: RC4 is a stream cipher (output = data XOR keystream(key)),
-/// hence two applications with different keys commute.
-#[verifier::external_body]
-pub proof fn axiom_rc4_commutes(a: Seq<u8>, b: Seq<u8>, d: Seq<u8>)
-    ensures rc4_spec(a, rc4_spec(b, d)) == rc4_spec(b, rc4_spec(a, d))
-{}
+// RC4 is a stream cipher (output = data XOR keystream(key)), hence two applications with different keys commute:
+// `lemma_rc4_commutes(a, b, d)` of units/rc4 (rc4/rc4_spec.rs, PROVED there and re-checked in this file). Until units/rc4 existed
+// this was a trusted statement about an uninterpreted function.
 pub proof fn lemma_push(x: Seq<u8>, k: Seq<u8>, d: Seq<u8>, c: int)
-    ensures rc4_spec(x, alg7_down(k, d, c)) == alg7_down(k, rc4_spec(x, d), c)
+    ensures rc4(x, alg7_down(k, d, c)) == alg7_down(k, rc4(x, d), c)
     decreases c
 {
     if c > 0 {
         let y = xor_key(k, (c - 1) as u8);
-        axiom_rc4_commutes(y, x, d);
-        lemma_push(x, k, rc4_spec(y, d), c - 1);
+        lemma_rc4_commutes(y, x, d);
+        lemma_push(x, k, rc4(y, d), c - 1);
     }
 }
 pub proof fn lemma_up_is_down(k: Seq<u8>, d: Seq<u8>, c: int)
@@ -391,8 +395,8 @@ pub proof fn lemma_alg7(rev: u32, k: Seq<u8>, o: Seq<u8>, rounds: int)
     lemma_up_is_down(k, o, rounds);
     if rev == 2 && rounds == 1 {
         lemma_xor_zero(k);
-        assert(alg7_down(k, rc4_spec(xor_key(k, 0u8), o), 0) == rc4_spec(xor_key(k, 0u8), o));
-        assert(alg7_down(k, o, 1) == rc4_spec(k, o));
+        assert(alg7_down(k, rc4(xor_key(k, 0u8), o), 0) == rc4(xor_key(k, 0u8), o));
+        assert(alg7_down(k, o, 1) == rc4(k, o));
     }
 }
 pub proof fn lemma_concat_empty(a: Seq<u8>)
